@@ -213,9 +213,11 @@ class CSSNamespaceRule(cssrule.CSSRule):
 
             # set all
             if wellformed:
+                # may raise if a different namespaceURI is set already,
+                # so must be done before anything else is set
+                self.namespaceURI = new['uri']
                 self.atkeyword = new['keyword']
                 self._prefix = new['prefix']
-                self.namespaceURI = new['uri']
                 self._setSeq(newseq)
 
     cssText = property(
